@@ -30,7 +30,15 @@ type Case struct {
 func compare(b []byte, want smfref.File) string {
 	var s *smf.SMF
 	var err error
-	if p := ev.TryTimeout(ev.Watchdog, func() { s, err = smf.ReadFrom(bytes.NewReader(b), adapt.ReadOpts(b)...) }); p != "" {
+	if p := ev.TryTimeout(ev.Watchdog, func() {
+		// for files with a long payload, and for every fourth of the others, a read of the same
+		// file that ends early comes first (its outcome is C05's business, not this property's)
+		if len(b) > 65536 || (len(b) > 30 && (int(b[len(b)/2])+len(b))%4 == 0) {
+			cut := len(b) * (1 + int(b[len(b)/3])%7) / 8
+			smf.ReadFrom(bytes.NewReader(b[:cut]))
+		}
+		s, err = smf.ReadFrom(bytes.NewReader(b), adapt.ReadOpts(b)...)
+	}); p != "" {
 		return "smf.ReadFrom: " + p
 	}
 	if err != nil {
@@ -73,7 +81,7 @@ func run(c Case) (res ev.Result) {
 }
 
 var files = ev.NewCheck("C02", "grammar-files",
-	"rapid byte-level grammar: header length 6, format 0/1/2, metric 1..32767 or SMPTE 24/25/29/30, 0..2 alien chunks (one file in 120: 255..1200 tiny ones in one gap) before/between/after 1..5 tracks of 0..14 events (one track in 120: 1000..6000 short events with deltas 0..3), events with running status in any legal position, padded VLQs (<=4 bytes), F0 without F7, F7 packets, unknown meta types, payloads up to 70000 bytes; oracle = expectation by construction cross-checked with an independent decoder, compared event by event with smf.ReadFrom; non-trivial = file uses at least one encoding freedom the library's writer never produces (classes histogram) ; distinct by file bytes",
+	"rapid byte-level grammar: header length 6, format 0/1/2, metric 1..32767 or SMPTE 24/25/29/30, 0..2 alien chunks (one file in 120: 255..1200 tiny ones in one gap) before/between/after 1..5 tracks of 0..14 events (one track in 120: 1000..6000 short events with deltas 0..3), events with running status in any legal position, padded VLQs (<=4 bytes), F0 without F7, F7 packets, unknown meta types, payloads up to 70000 bytes; a read of the same file that ends early precedes the read of every file with a long payload and of every fourth other file; oracle = expectation by construction cross-checked with an independent decoder, compared event by event with smf.ReadFrom; non-trivial = file uses at least one encoding freedom the library's writer never produces (classes histogram) ; distinct by file bytes",
 	func(t *rapid.T) Case {
 		o := gen.AllFreedoms
 		o.LongTracks = 120
